@@ -9,7 +9,7 @@
    object layers (none of them L, none empty), ss/os the lowered filters. *)
 From Coq Require Import List Bool NArith.
 From PTA Require Import Names Graph Search Rule SpecRule Builder Layer SpecLayer.
-From PTA Require Import NamesProofs SearchProofs RuleProofs AlgebraProofs LayerProofs.
+From PTA Require Import Worklist WRule WLayer NamesProofs SearchProofs RuleProofs AlgebraProofs LayerProofs GraphProofs WorklistProofs WRuleProofs WLayerProofs.
 Import ListNotations.
 
 (* all 12 shapes, any number of object layers, named and regex layers, unmentioned layers *)
@@ -50,6 +50,20 @@ Theorem C05_layer_of_nonmember :
   (forall x, In x (listed um) -> prefixb ceqb x m = false) -> layer_of ceqb um m = Ok None.
 Proof. exact @layer_of_nonmember. Qed.
 Print Assumptions C05_layer_of_nonmember.
+
+(* the layer rule evaluated over the transcribed worklist loops of breadth_first_searches.py (Model/WLayer.v) terminates and has
+   the outcome of [layer_assert_applies] - same class, same error, same set of report lines - for every builder history,
+   on every graph closed under ancestors whose imports are between nodes and never a hierarchy pair (every built graph,
+   C01_built_graph_wellformed) *)
+Theorem C05_loops_verdict :
+  forall (comp : Type) (ceqb : comp -> comp -> bool), (forall x y, reflect (x = y) (ceqb x y)) ->
+  forall (rmatch : N -> list comp -> bool) g, wf_graph g ->
+  (forall n p, In n (nodes g) -> In p (proper_prefixes n) -> In p (nodes g)) ->
+  (forall a b, In (a, b) (imps g) -> childb ceqb a b = false) ->
+  forall calls,
+  exists o, w_run_layer_rule ceqb rmatch g calls = Some o /\ loutcome_equiv o (run_layer_rule ceqb rmatch g calls).
+Proof. intros comp ceqb Hs rmatch g Hwf Hanc Hnh calls. exact (w_run_layer_rule_refines ceqb Hs rmatch g Hwf Hanc Hnh calls). Qed.
+Print Assumptions C05_loops_verdict.
 
 (* non-vacuity: D7's shape.  A = {r.ba, r.aa}, B = {r.ab}, C given by a regex and not mentioned;
    the only import is inside A: 'A should access layers except B' fails, 'A should not access B' passes *)
